@@ -1423,25 +1423,37 @@ insert_list:
         return 0;
     }
     // returns 0 if slept well (at lease `useconds`), -1 otherwise
+    // a thread marked by thread_shutdown() must not block for more than 10ms,
+    // in a wait queue (mutex, semaphore, condition variable, join) as well
+    inline int shutdown_usleep_result(int ret) {
+        if (ret >= 0) errno = EPERM;
+        return -1;
+    }
     static int thread_usleep(Timeout timeout, thread_list* waitq)
     {
         if (unlikely(timeout.expired())) {
             return yield_as_sleep();
         }
 
+        bool shutting_down = CURRENT->is_shutting_down();
+        if (unlikely(shutting_down)) timeout.timeout_at_most(10 * 1000);
         auto r = prepare_usleep(timeout, waitq);
         switch_context(r.from, r.to);
         assert(r.from->waitq == nullptr);
-        return verif_resume(r.from, r.from->set_error_number());
+        int ret = verif_resume(r.from, r.from->set_error_number());
+        return unlikely(shutting_down) ? shutdown_usleep_result(ret) : ret;
     }
 
     static int thread_usleep_defer(Timeout timeout,
         thread_list* waitq, defer_func defer, void* defer_arg)
     {
+        bool shutting_down = CURRENT->is_shutting_down();
+        if (unlikely(shutting_down)) timeout.timeout_at_most(10 * 1000);
         auto r = prepare_usleep(timeout, waitq);
         switch_context_defer(r.from, r.to, defer, defer_arg);
         assert(r.from->waitq == nullptr);
-        return verif_resume(r.from, r.from->set_error_number());
+        int ret = verif_resume(r.from, r.from->set_error_number());
+        return unlikely(shutting_down) ? shutdown_usleep_result(ret) : ret;
     }
 
     __attribute__((noinline))
